@@ -1623,15 +1623,16 @@ def check_group_equality_history(run, tree):
     eq = tree.method(ci, "__eq__")
     run.analysed(eq)
     A = rat(Poly.sym("A"))
-    km, kcm = rat(Poly.sym("k_m")), rat(Poly.sym("k_cm"))
-    for orient in ("g1 == g2", "g2 == g1"):
-        construct = DG_Q + ".__eq__[history: members in m and cm, %s; edit a buffer; compare again]" % orient
+    # lengths in m / cm, and a pure number written as a fraction / in percent (a dimensionless unit with a size of its own: 50 percent == 0.5)
+    for (u1, u2), orient in [(p_, o_) for p_ in (("m", "cm"), ("dimensionless", "percent")) for o_ in ("g1 == g2", "g2 == g1")]:
+        km, kcm = UU.parse(u1).scale(), UU.parse(u2).scale()
+        construct = DG_Q + ".__eq__[history: members in %s and %s, %s; edit a buffer; compare again]" % (u1 if u1 != "dimensionless" else "plain numbers", u2, orient)
         try:
             hk = stack_hooks(tree)
             hk["ext"]["numpy.any"] = _np_any
             ev = ModelEval(tree, tree.method(ci, "__init__"), {}, hk)
-            p1 = arr(tree, hk, "A", "m")
-            p2 = arr(tree, hk, RawV(A * km / kcm), "cm")         # the same lengths written in cm
+            p1 = arr(tree, hk, "A", u1)
+            p2 = arr(tree, hk, RawV(A * km / kcm), u2)         # the same quantities written in the other unit
             g1 = ev.instantiate(ci, [], {"pos": p1}, None)
             g2 = ev.instantiate(ci, [], {"pos": p2}, None)
             l, r = (g1, g2) if orient.startswith("g1") else (g2, g1)
